@@ -52,7 +52,8 @@ Definition scope_try (lim cnt : Z -> Z) (p : Z) : option (Z -> Z) :=
 Definition scope_release (cnt : Z -> Z) (p : Z) : Z -> Z := upd cnt p (cnt p - 1).
 
 (* c_limited: the one connection between the two hosts is a limited (relayed) one *)
-Record cfg := mkCfg { limD : Z -> Z; limL : Z -> Z; c_limited : bool }.
+(* c_rcmgr: the streams carry real resource-manager scopes (a second SetProtocol is refused) *)
+Record cfg := mkCfg { limD : Z -> Z; limL : Z -> Z; c_limited : bool; c_rcmgr : bool }.
 
 (* what one open (NewStream + first use) shows:
    o_res   0 ok | 1 negotiation failed | 2 dialer's scope refused | 3 no protocols |
@@ -192,6 +193,8 @@ Inductive op :=
 | OKnow (k : list Z)                                (* peerstore SetProtocols(listener, k) *)
 | OBatch (opens : list oreq)                        (* concurrent NewStream + first use; 1 = sequential *)
 | OClose (slot how : Z)                             (* both ends close (0) / reset (1) a held stream *)
+| ORelabel (slot side q : Z)                        (* SetProtocol(q) once more on the dialer's (0) /
+                                                       the listener's (1) end of a held stream *)
 | OReconnect (dir wait : Z).                        (* the connection is closed and a new one appears below
                                                        the host (dir 0: dialer's Network().DialPeer, 1: the
                                                        listener dials = inbound); wait 0: the next op (an
@@ -202,6 +205,7 @@ Inductive obs :=
 | ObKnow (l : list Z)                    (* knowledge, sorted, within the universe *)
 | ObBatch (rs : list ores) (un : list (Z * Z)) (kn : list Z) (sc : list Z)
 | ObClose (sc : list Z)
+| ObRelabel (err dl ll : Z)              (* did SetProtocol fail; Protocol() of both ends afterwards *)
 | ObRe (mx : list Z) (sc : list Z).      (* what the listener advertises; scopes after the old streams died *)
 
 Fixpoint zrange (from : Z) (n : nat) : list Z :=
@@ -244,6 +248,17 @@ Section MSRun.
              ObClose (scope_vec U o' i'))
         | None => (s, ObClose (scope_vec U (outD s) (inL s)))
         end
+    | ORelabel slot side q =>
+        (* swarm Stream.SetProtocol: the scope is asked first; a stream scope that is
+           already attached to a protocol refuses, and a refused SetProtocol leaves the
+           recorded protocol as it was.  (Without scopes the label is simply
+           overwritten; not tracked further.) *)
+        (s, match find (fun x => fst x =? slot) (held s) with
+            | Some (_, p) =>
+                if c_rcmgr c then ObRelabel 1 p p
+                else if side =? 0 then ObRelabel 0 q p else ObRelabel 0 p q
+            | None => ObRelabel (-1) (-1) (-1)
+            end)
     | OReconnect _ _ =>
         (* every stream of the old connection is gone; identify on the new
            connection replaces what the peerstore lists for the listener by
